@@ -839,7 +839,10 @@ h2_recv_priority (connection * const con, const uint8_t * const s, const uint32_
     }
     /* XXX: TODO: update priority info for unknown/inactive stream */
     /*if (h2c->sent_goaway && h2c->h2_cid < id) return;*/
-    if (prio == id) {
+    /* RFC 9113 6.4: RST_STREAM MUST NOT be sent for a stream in the "idle"
+     * state (PRIORITY may be received in any state and does not open the
+     * stream; RFC 9113 5.3.2 deprecates the priority signal: ignore it) */
+    if (prio == id && (id & 1) && id <= h2c->h2_cid) {
         h2_send_rst_stream_id(id, con, H2_E_PROTOCOL_ERROR);
         return;
     }
